@@ -502,6 +502,9 @@ static inline parsec_object_t *parsec_obj_new(parsec_class_t * cls)
 static inline int parsec_obj_update(parsec_object_t *object, int inc) __parsec_attribute_always_inline__;
 static inline int parsec_obj_update(parsec_object_t *object, int inc)
 {
+#if defined(PARSEC_VERIF)
+    PARSEC_VERIF_YIELD(PARSEC_VERIF_SITE_OBJECT);
+#endif
     return parsec_atomic_fetch_add_int32(&(object->obj_reference_count), inc ) + inc;
 }
 #else
